@@ -4,8 +4,9 @@
    dexpr is the differentiable fragment of the expression language xexpr of Tensor/ProofsBatchLaw.v
    over a commutative ring R: leaves are the entries of an environment (inputs / parameters, the
    things gradients are asked for), constants, and the operators
-       negate, x+k, x-k, k-x, x*k, add, subtract, multiply (with B-vs-1 minibatch broadcasting),
-       matmul, sum along an axis, slice, pick, broadcast, reshape / flatten, transpose, flip.
+       negate, x+k, x-k, k-x, x*k (k a constant or a scalar-shaped tensor), add, subtract, multiply
+       (with B-vs-1 minibatch broadcasting), matmul, conv2d, sum along an axis, slice, pick, broadcast,
+       reshape / flatten, transpose, permute_dims, flip.
    Forward semantics = xeval of the erased program (the real kernel index programs of
    Tensor/Kernels.v); the reverse sweep [dback] pushes the upstream gradient through the BACKWARD
    kernel programs of the SAME operator descriptors as core_family of Tensor/GraphInst.v
@@ -21,10 +22,10 @@
                           sample b of gy
      grad_batched_is_sample   a leaf of batch B: sample c of its gradient is its gradient from the
                           per-sample run c
-   NOT covered here (no polynomial tangent over a ring, or not in core_family): the elementwise
-   functions with analytic derivatives, divide / pow, max / min / logsumexp, max_pool2d, and - for
-   brevity only - concat, permute_dims, conv2d and the ...Scalar variants (their per-kernel folding
-   is in ProofsBatchLaw.v / GraphInst.v). *)
+   NOT covered here: the elementwise functions with analytic derivatives, divide / pow (also their
+   ...Scalar / ...Const variants), max / min / logsumexp, max_pool2d (no polynomial tangent over a
+   ring; not in core_family), and concat (n-ary; its per-operand folding is concat_bw / paste_adj of
+   Tensor/GraphInst.v). *)
 From Coq Require Import List NArith Bool Arith Lia Ring Permutation.
 From PV Require Import Graph.OpFamily Tensor.Kernels Tensor.Index Tensor.KernelProofs
   Tensor.ProofsGather Tensor.ProofsPerm Tensor.ProofsBilinear Tensor.ProofsBatchSample Tensor.ProofsBatchLaw
@@ -209,6 +210,63 @@ Proof. unfold rshape. cbn [tdims tbatch]. rewrite Nat.max_id. reflexivity. Qed.
 Lemma axis_red_sequential sx sy dim : sequential (axis_red sx sy dim) (tsize sy).
 Proof. unfold sequential, axis_red, range. rewrite map_map. cbn [fst]. apply map_id. Qed.
 
+Lemma single_permute_fw sx sy perm : single (permute_fw sx sy perm).
+Proof. unfold single, permute_fw. rewrite Forall_map. apply Forall_forall. intros e _. reflexivity. Qed.
+
+Lemma guard_permute sx perm : twf sx -> PBS.permute_ok sx perm ->
+  GraphInst.permute_ok sx (permute_shape sx perm) perm = true.
+Proof.
+  intros W [Hp Hd]. pose proof (permute_shape_twf sx perm W) as Wy. unfold GraphInst.permute_ok.
+  assert (Tb : forall s, twf s -> twf_b s = true).
+  { intros s [H1 H2]. unfold twf_b. apply andb_true_intro. split; [|apply Nat.ltb_lt; exact H2].
+    apply forallb_forall. intros d Hd'. apply Nat.ltb_lt. apply (proj1 (Forall_forall _ _) H1 d Hd'). }
+  rewrite (Tb sx W), (Tb _ Wy). repeat (apply andb_true_intro; split); try reflexivity.
+  - apply forallb_forall. intros d Hin. apply existsb_exists. exists d. split; [|apply Nat.eqb_refl].
+    apply (Permutation_in _ (Permutation_sym Hp) Hin).
+  - apply Nat.leb_le. exact Hd.
+  - apply Nat.leb_le. apply permute_shape_depth.
+  - apply forallb_forall. intros a Hin. apply in_seq in Hin. apply Nat.eqb_eq. apply permute_shape_dims. lia.
+  - apply Nat.eqb_eq. reflexivity.
+Qed.
+
+Lemma guard_scalar sx sk B : twf sx -> twf sk -> tdims sk = [] ->
+  (tbatch sx = 1 \/ tbatch sx = B) -> (tbatch sk = 1 \/ tbatch sk = B) -> scalar_ok sx sk = true.
+Proof.
+  intros Wx Wk Hd Ha Hb. pose proof (PBS.tvolume_pos sx Wx) as Hv. destruct Wx as [_ Wa]. destruct Wk as [_ Wb].
+  unfold scalar_ok. rewrite Hd. btrue; try lia. apply orb_true_iff.
+  destruct Ha as [Ha|Ha]; [left; apply orb_true_iff; right; apply Nat.eqb_eq; exact Ha|].
+  destruct Hb as [Hb|Hb]; [right; apply Nat.eqb_eq; exact Hb|].
+  left. apply orb_true_iff. left. apply Nat.eqb_eq. lia.
+Qed.
+
+Lemma guard_conv2d sx sw p0 p1 s0 s1 d0 d1 B : twf sx -> twf sw -> PBS.conv2d_ok sx sw p0 p1 s0 s1 d0 d1 ->
+  (tbatch sx = 1 \/ tbatch sx = B) -> (tbatch sw = 1 \/ tbatch sw = B) ->
+  GraphInst.conv2d_ok sx sw (conv2d_shape sx sw p0 p1 s0 s1 d0 d1) = true.
+Proof.
+  intros Wx Ww (Hvx & Hvw & Hc & _) Ha Hb. pose proof (PBS.tget_pos sw 0 Ww) as H0. pose proof (PBS.tget_pos sw 1 Ww) as H1.
+  destruct Wx as [_ Wa]. destruct Ww as [_ Wb]. unfold GraphInst.conv2d_ok.
+  rewrite (conv2d_shape_volume sx sw p0 p1 s0 s1 d0 d1). unfold conv2d_shape.
+  cbn [tbatch tget tdims nth]. btrue; try lia.
+  - apply or_eqb. lia.
+  - apply or_eqb. lia.
+Qed.
+
+Lemma conv2d_dst_bound sx sw p0 p1 s0 s1 d0 d1 : twf sx -> twf sw -> PBS.conv2d_ok sx sw p0 p1 s0 s1 d0 d1 ->
+  let sy := conv2d_shape sx sw p0 p1 s0 s1 d0 d1 in
+  Forall (fun e : nat * (nat * nat) => fst e < tsize sy) (conv2d_triples sx sw sy p0 p1 s0 s1 d0 d1).
+Proof.
+  intros Hwx Hww Hok. cbv zeta. rewrite conv2d_blocks.
+  destruct (conv2d_unb_body sx sw p0 p1 s0 s1 d0 d1 Hwx Hww Hok) as [_ IB]. apply Forall_forall. intros e He.
+  apply In_flat_map2 in He. destruct He as [b' [Hb' He]]. apply in_map_iff in He. destruct He as [e1 [<- He1]].
+  destruct (proj1 (Forall_forall _ _) IB _ He1) as [L _]. unfold shift3. cbn [fst].
+  rewrite tsize_eq. pose proof (block_le b' _ (tvolume (conv2d_shape sx sw p0 p1 s0 s1 d0 d1)) Hb'). lia.
+Qed.
+
+Lemma scalar_fw_length sx sk sy : length (scalar_fw sx sk sy) = tsize sy.
+Proof. rewrite (scalar_fw_bprog _ _ _ _ _ eq_refl eq_refl), bprog_length. reflexivity. Qed.
+Lemma tvolume_nil s : tdims s = [] -> tvolume s = 1.
+Proof. intro H. unfold tvolume. rewrite H. reflexivity. Qed.
+
 Section BatchGrad.
   Context {R : Type} (rO rI : R) (radd rmul rsub : R -> R -> R) (ropp : R -> R).
   Hypothesis Rth : ring_theory rO rI radd rmul rsub ropp eq.
@@ -288,18 +346,16 @@ Section BatchGrad.
   Proof. intro H. rewrite (nth_indep _ rO (F dflt)) by (rewrite map_length; exact H). apply map_nth. Qed.
 
   (* multiply: da*b + a*db, evaluated as the program add(mul(da, b), mul(a, db)) *)
-  Lemma mul_tangent sa sb (a b da db : list R) :
-    let sy := rshape sa sb in let p := ab_fw sa sb sy in
+  Lemma ew_tangent (p : list (nat * (nat * nat))) sy (a b da db : list R) : length p = tsize sy ->
     map (fun e : nat * (nat * nat) => radd (rmul (nth (fst (snd e)) da rO) (nth (snd (snd e)) b rO))
                                            (rmul (nth (fst (snd e)) a rO) (nth (snd (snd e)) db rO))) p
     = ab_eval R rO radd (ab_fw sy sy sy) (ab_eval R rO rmul p da b) (ab_eval R rO rmul p a db).
   Proof.
-    cbv zeta. set (sy := rshape sa sb). set (p := ab_fw sa sb sy).
-    assert (Hn : length p = tsize sy).
-    { apply (sequential_length p). apply (ab_fw_sequential sa sb sy (tvolume sy) (tbatch sy) eq_refl eq_refl). }
-    rewrite ab_same_eval, <- Hn. rewrite (map_as_seq _ p (0, (0, 0))). apply map_ext_in. intros d Hd. apply in_seq in Hd.
+    intro Hn. rewrite ab_same_eval, <- Hn. rewrite (map_as_seq _ p (0, (0, 0))). apply map_ext_in. intros d Hd. apply in_seq in Hd.
     unfold ab_eval. rewrite !(nth_map_in _ p (0, (0, 0))) by lia. reflexivity.
   Qed.
+  Lemma ab_fw_length sa sb sy : length (ab_fw sa sb sy) = tsize sy.
+  Proof. apply (sequential_length (ab_fw sa sb sy)). apply (ab_fw_sequential sa sb sy (tvolume sy) (tbatch sy) eq_refl eq_refl). Qed.
 
   Lemma fold_left_radd_split {A} (u w : A -> R) (l : list A) : forall a c,
     fold_left radd (map (fun e => radd (u e) (w e)) l) (radd a c)
@@ -343,8 +399,11 @@ Section BatchGrad.
   Inductive unop :=
   | UNeg | UAddC (k : R) | USubCR (k : R) | USubCL (k : R) | UMulC (k : R)
   | USlice (dim off n : nat) | UPick (ids : list nat) (dim : nat) | UBroadcast (dim size : nat)
-  | UFlip (dim : nat) | UTranspose | USum (dim : nat) | UReshape (dims : list nat).
-  Inductive binop := BAdd | BSub | BMul | BMatmul.
+  | UFlip (dim : nat) | UTranspose | UPermute (perm : list nat) | USum (dim : nat) | UReshape (dims : list nat).
+  Inductive binop :=
+  | BAdd | BSub | BMul | BMatmul
+  | BAddS | BSubSR | BSubSL | BMulS                      (* second operand a scalar: x+k, x-k, k-x, x*k *)
+  | BConv2d (p0 p1 s0 s1 d0 d1 : nat).
 
   (* the node of the expression language *)
   Definition un_x (u : unop) (e : xexpr) : xexpr :=
@@ -359,6 +418,7 @@ Section BatchGrad.
     | UBroadcast dim size => XBroadcast R dim size e
     | UFlip dim => XFlip R dim e
     | UTranspose => XTranspose R e
+    | UPermute perm => XPermute R perm e
     | USum dim => XReduce R sumf dim e
     | UReshape dims => XReshape R dims e
     end.
@@ -376,6 +436,7 @@ Section BatchGrad.
     | UPick ids dim => pick_shape sx ids dim
     | UBroadcast dim size => set_dim sx dim size
     | UTranspose => transpose_shape sx
+    | UPermute perm => permute_shape sx perm
     | USum dim => set_dim sx dim 1
     | UReshape dims => reshape_shape sx dims
     | _ => sx
@@ -387,6 +448,7 @@ Section BatchGrad.
     | UPick ids dim => PBS.pick_ok sx ids dim /\ (length ids = 1 \/ length ids = B)
     | UBroadcast dim size => PBS.broadcast_ok sx dim size
     | UTranspose => PBS.transpose_ok sx
+    | UPermute perm => PBS.permute_ok sx perm
     | UReshape dims => PBS.reshape_ok sx dims
     | _ => True
     end.
@@ -403,6 +465,7 @@ Section BatchGrad.
     | UBroadcast dim size => OBroadcast sx (set_dim sx dim size) dim size
     | UFlip dim => OFlip sx dim
     | UTranspose => OTranspose sx (transpose_shape sx)
+    | UPermute perm => OPermute sx (permute_shape sx perm) perm
     | USum dim => OSum sx (set_dim sx dim 1) dim
     | UReshape dims => OReshape sx (reshape_shape sx dims)
     end.
@@ -410,6 +473,9 @@ Section BatchGrad.
   Definition bin_x (o : binop) (e1 e2 : xexpr) : xexpr :=
     match o with
     | BAdd => XBin R radd e1 e2 | BSub => XBin R rsub e1 e2 | BMul => XBin R rmul e1 e2 | BMatmul => XMatmul R e1 e2
+    | BAddS => XScal R radd e1 e2 | BSubSR => XScal R rsub e1 e2 | BSubSL => XScal R (fun x k => rsub k x) e1 e2
+    | BMulS => XScal R rmul e1 e2
+    | BConv2d p0 p1 s0 s1 d0 d1 => XConv2d R p0 p1 s0 s1 d0 d1 e1 e2
     end.
   Definition bin_t (o : binop) (e1 e2 t1 t2 : xexpr) : xexpr :=
     match o with
@@ -417,15 +483,31 @@ Section BatchGrad.
     | BSub => XBin R rsub t1 t2
     | BMul => XBin R radd (XBin R rmul t1 e2) (XBin R rmul e1 t2)
     | BMatmul => XBin R radd (XMatmul R t1 e2) (XMatmul R e1 t2)
+    | BAddS => XScal R radd t1 t2
+    | BSubSR => XScal R rsub t1 t2
+    | BSubSL => XScal R (fun x k => rsub k x) t1 t2
+    | BMulS => XBin R radd (XScal R rmul t1 e2) (XScal R rmul e1 t2)
+    | BConv2d p0 p1 s0 s1 d0 d1 => XBin R radd (XConv2d R p0 p1 s0 s1 d0 d1 t1 e2) (XConv2d R p0 p1 s0 s1 d0 d1 e1 t2)
     end.
   Definition bin_shape (o : binop) (s1 s2 : tshape) : tshape :=
-    match o with BMatmul => matmul_shape s1 s2 | _ => rshape s1 s2 end.
+    match o with
+    | BMatmul => matmul_shape s1 s2
+    | BConv2d p0 p1 s0 s1' d0 d1 => conv2d_shape s1 s2 p0 p1 s0 s1' d0 d1
+    | _ => rshape s1 s2
+    end.
   (* elementwise: Shape::has_same_dims (the model does not normalise trailing 1s, so equal dims) *)
   Definition bin_cond (o : binop) (s1 s2 : tshape) : Prop :=
-    match o with BMatmul => PBS.matmul_ok s1 s2 | _ => tdims s1 = tdims s2 end.
+    match o with
+    | BMatmul => PBS.matmul_ok s1 s2
+    | BConv2d p0 p1 s0 s1' d0 d1 => PBS.conv2d_ok s1 s2 p0 p1 s0 s1' d0 d1
+    | BAddS | BSubSR | BSubSL | BMulS => tdims s2 = []          (* Shape::is_scalar *)
+    | _ => tdims s1 = tdims s2
+    end.
   Definition bin_cop (o : binop) (s1 s2 : tshape) : @cop R :=
     match o with
     | BAdd => OAdd s1 s2 | BSub => OSub s1 s2 | BMul => OMul s1 s2 | BMatmul => OMatmul s1 s2 (matmul_shape s1 s2)
+    | BAddS => OAddScalar s1 s2 | BSubSR => OSubScalarR s1 s2 | BSubSL => OSubScalarL s1 s2 | BMulS => OMulScalar s1 s2
+    | BConv2d p0 p1 s0 s1' d0 d1 => OConv2d s1 s2 (conv2d_shape s1 s2 p0 p1 s0 s1' d0 d1) p0 p1 s0 s1' d0 d1
     end.
 
   (* a node's evaluation only depends on the evaluation of its operands *)
@@ -458,8 +540,13 @@ Section BatchGrad.
     intros H1 H2. destruct o; cbn [bin_t xeval fst bin_shape]; rewrite ?H1, ?H2; try reflexivity; apply rshape_self.
   Qed.
   Lemma bin_cond_same o s1 s2 : bin_cond o s1 s2 ->
-    match o with BMatmul => PBS.matmul_ok s1 s2 | _ => same_dims s1 s2 end.
-  Proof. destruct o; cbn [bin_cond]; try apply tdims_same_dims; auto. Qed.
+    match o with
+    | BMatmul => PBS.matmul_ok s1 s2
+    | BConv2d p0 p1 s0 s1' d0 d1 => PBS.conv2d_ok s1 s2 p0 p1 s0 s1' d0 d1
+    | BAddS | BSubSR | BSubSL | BMulS => tvolume s2 = 1
+    | _ => same_dims s1 s2
+    end.
+  Proof. destruct o; cbn [bin_cond]; try apply tdims_same_dims; try apply tvolume_nil; auto. Qed.
   Lemma xw_bin_x o B e1 e2 : xw B e1 -> xw B e2 -> bin_cond o (fst (xe e1)) (fst (xe e2)) -> xw B (bin_x o e1 e2).
   Proof. intros H1 H2 Hc. apply bin_cond_same in Hc. destruct o; cbn [bin_x xwf]; auto. Qed.
   Lemma xw_bin_x_inv o B e1 e2 : xw B (bin_x o e1 e2) -> xw B e1 /\ xw B e2.
@@ -489,14 +576,18 @@ Section BatchGrad.
     - apply guard_broadcast; assumption.
     - apply guard_flip; assumption.
     - apply guard_transpose; assumption.
+    - apply guard_permute; assumption.
     - apply guard_sum; assumption.
     - apply guard_reshape; assumption.
   Qed.
   Lemma bin_guard o B s1 s2 : twf s1 -> twf s2 -> (tbatch s1 = 1 \/ tbatch s1 = B) -> (tbatch s2 = 1 \/ tbatch s2 = B) ->
     bin_cond o s1 s2 -> d_ok (desc (bin_cop o s1 s2)) = true.
   Proof.
-    intros W1 W2 B1 B2 Hc. destruct o; cbn [bin_cop describe bin_cond d_ok ew_desc matmul_desc] in *;
-      try (apply (guard_ew s1 s2 B); assumption). apply (guard_matmul s1 s2 B); assumption.
+    intros W1 W2 B1 B2 Hc.
+    destruct o; cbn [bin_cop describe bin_cond d_ok ew_desc matmul_desc bil_desc addsc_desc subscr_desc subscl_desc mulsc_desc sclin_desc] in *;
+      try (apply (guard_ew s1 s2 B); assumption); try (apply (guard_scalar s1 s2 B); assumption).
+    - apply (guard_matmul s1 s2 B); assumption.
+    - apply (guard_conv2d s1 s2 p0 p1 s0 s3 d0 d1 B); assumption.
   Qed.
 
   Lemma un_jvp u B sx (xv dxv : list R) : twf sx -> un_cond u B sx ->
@@ -509,19 +600,25 @@ Section BatchGrad.
     - symmetry. apply mov_eval_gather, single_broadcast_fw.
     - symmetry. apply mov_eval_gather, single_acc_as_mov.
     - symmetry. apply mov_eval_gather, single_transpose_fw.
+    - symmetry. apply mov_eval_gather, single_permute_fw.
     - apply red_scatter, axis_red_sequential.
     - assert (E : tsize (reshape_shape sx dims) = tsize sx).
       { destruct Hc as [_ Hv]. unfold tsize, reshape_shape. cbn [tbatch]. f_equal. unfold tvolume at 1. cbn [tdims]. exact Hv. }
       rewrite E. symmetry. apply mov_eval_gather, identity_single.
   Qed.
 
-  Lemma bin_jvp o s1 s2 (a b da db : list R) : bin_cond o s1 s2 ->
+  Lemma bin_jvp o s1 s2 (a b da db : list R) : twf s1 -> twf s2 -> bin_cond o s1 s2 ->
     d_jvp (desc (bin_cop o s1 s2)) [a; b] [da; db]
     = [snd (xe (bin_t o (XLeaf R s1 a) (XLeaf R s2 b) (XLeaf R s1 da) (XLeaf R s2 db)))].
   Proof.
-    intro Hc. destruct o; cbn [bin_cop describe bin_cond d_jvp ew_desc matmul_desc nth bin_t xeval fst snd] in *; f_equal.
-    - rewrite rshape_self. apply mul_tangent.
+    intros W1 W2 Hc.
+    destruct o; cbn [bin_cop describe bin_cond d_jvp ew_desc matmul_desc bil_desc addsc_desc subscr_desc subscl_desc mulsc_desc sclin_desc
+                     nth bin_t xeval fst snd] in *;
+      try reflexivity; f_equal.
+    - rewrite rshape_self. apply ew_tangent, ab_fw_length.
     - rewrite rshape_self. apply matmul_tangent. apply matmul_dst_bound. exact Hc.
+    - rewrite rshape_self. apply ew_tangent, scalar_fw_length.
+    - rewrite rshape_self. apply matmul_tangent. apply (conv2d_dst_bound s1 s2 p0 p1 s0 s3 d0 d1 W1 W2 Hc).
   Qed.
 
   (* ---------------------------------------------------------------- one node: backward kernel vs tangent program *)
@@ -556,7 +653,7 @@ Section BatchGrad.
     destruct H as (E & Hs & _); try (constructor; [assumption|constructor; [assumption|constructor]]); try (constructor; [assumption|constructor]).
     specialize (Hs eq_refl). apply F2_two in Hs. destruct Hs as (i1 & i2 & Ei & L1 & L2).
     exists i1, i2. split; [exact Ei|]. split; [exact L1|]. split; [exact L2|].
-    rewrite Ei in E. unfold d in E. rewrite (bin_jvp o s1 s2 a b da db Hc) in E. cbn [OpFamily.dots] in E.
+    rewrite Ei in E. unfold d in E. rewrite (bin_jvp o s1 s2 a b da db W1 W2 Hc) in E. cbn [OpFamily.dots] in E.
     rewrite !radd_0_r in E. exact E.
   Qed.
   (* ---------------------------------------------------------------- linear algebra over lists *)
